@@ -77,3 +77,11 @@ Inductive out := ROk (v : val) (lx : clexer) | RErr (e : err) | RPanic | RFuel.
 
 Definition tk0 (k : kind) : tok := mktok k 0.
 Definition in_kinds (ks : list kind) (t : tok) : bool := existsb (fun k => tok_eqb (tk0 k) t) ks.
+
+(** [Iterator::position] *)
+Fixpoint position {A} (p : A -> bool) (l : list A) : option nat :=
+  match l with
+  | [] => None
+  | x :: r => if p x then Some 0 else option_map S (position p r)
+  end.
+
